@@ -1642,6 +1642,46 @@ func (r *e2Run) lastEnded() string {
 	return r.lastEndedS
 }
 
+// quitter (C15): short-lived sessions that join the common channel and leave through DELETE with a hostile
+// quit message (the other route by which client-chosen text reaches the other clients).
+func (r *e2Run) quitter(ctx context.Context) {
+	k := 0
+	for ctx.Err() == nil {
+		t := time.NewTimer(time.Duration(800+r.choice("quitter/wait", 3000)) * time.Millisecond)
+		select {
+		case <-ctx.Done():
+			t.Stop()
+			return
+		case <-t.C:
+		}
+		k++
+		node := r.choice("quitter/node", len(r.nodes))
+		rctx, cancel := context.WithTimeout(ctx, 20*time.Second)
+		code, body, _, err := r.request(rctx, node, "POST", "/robustirc/v1/session", nil, "")
+		var rep struct{ Sessionid, Sessionauth string }
+		if err != nil || code != 200 || json.Unmarshal(body, &rep) != nil || rep.Sessionid == "" {
+			cancel()
+			continue
+		}
+		h := map[string]string{"X-Session-Auth": rep.Sessionauth}
+		ok := true
+		for i, line := range []string{fmt.Sprintf("NICK qt%d", k), "USER qt 0 * :qt", "JOIN #sim"} {
+			b, _ := json.Marshal(map[string]interface{}{"Data": line, "ClientMessageId": uint64(3000000 + k*10 + i)})
+			if c, _, _, e := r.request(rctx, node, "POST", "/robustirc/v1/"+rep.Sessionid+"/message", h, string(b)); e != nil || c != 200 {
+				ok = false
+			}
+		}
+		if ok {
+			qm := []string{"bye\r\n:cl0!x@y PRIVMSG #sim :forged", "bye\nQUIT", "x\x00y", "plain", strings.Repeat("q", 700), "\r", "ünï\rcode"}[r.choice("quitter/msg", 7)]
+			b, _ := json.Marshal(map[string]string{"Quitmessage": qm})
+			if c, _, _, e := r.request(rctx, node, "DELETE", "/robustirc/v1/"+rep.Sessionid, h, string(b)); e == nil && c == 200 {
+				r.count("hostile_quit_messages", 1)
+			}
+		}
+		cancel()
+	}
+}
+
 // noteSecret (C11): every secret the network ever handed out, by session.
 func (r *e2Run) noteSecret(session, auth string) {
 	r.secretsMu.Lock()
@@ -1998,6 +2038,8 @@ func e2Execute(t *testing.T, sc *e2Scenario, prop string, res *core.Result) erro
 		if e2RaceBuild {
 			runActor(r.stress)
 		}
+	case "C15":
+		runActor(r.quitter)
 	case "C16":
 		runActor(r.admin)
 	case "C17":
